@@ -27,6 +27,8 @@ type c10Fmt struct {
 	// Syms overrides the record alphabet "ABCDE"; a symbol may also be a NON-target unit (its solo run
 	// delivers nothing), which must leave the results of the target records around it unchanged
 	Syms string
+	// Render, when set, lays out the input for a sequence instead of Prefix + Rec... + Suffix
+	Render func(f c10Fmt, seq string) string
 }
 
 func (f c10Fmt) syms() string {
@@ -102,7 +104,11 @@ func c10Formats() []c10Fmt {
 		// target records among siblings that have the same local name under another namespace prefix, or
 		// another name altogether: those (N, M) are not records and must not become ones next to a record
 		{Name: "xml-ns", Schema: `{` + h("xml") + `,"transform_declarations":{"FINAL_OUTPUT":{"xpath":"/r/v1:o","object":{"id":{"xpath":"@id"},"n":{"xpath":"v1:N","type":"int"},"x":{"xpath":"v2:N"}}}}}`,
-			Prefix: `<r xmlns:v1="u1" xmlns:v2="u2">`, Suffix: "</r>", Syms: "ABCNMR", Rec: map[byte]string{
+			Prefix: `<r xmlns:v1="u1" xmlns:v2="u2">`, Suffix: "</r>", Syms: "ABCNMRST", Rec: map[byte]string{
+				// S and T declare namespaces on the record element itself: another prefix for a URI of the
+				// enclosing scope, and two prefixes for that URI at once; whatever they bind ends with them
+				'S': `<v1:o id="5" xmlns:w="u2"><v1:N>5</v1:N><w:N>s</w:N></v1:o>`,
+				'T': `<v1:o id="6" xmlns:p="u2" xmlns:q="u2"><v1:N>6</v1:N><q:N>t</q:N></v1:o>`,
 				// R binds the records' namespace URI to another prefix somewhere inside itself
 				'R': `<v1:o id="4"><v1:N>4</v1:N><z:e xmlns:z="u1">r</z:e></v1:o>`,
 				'A': `<v1:o id="1"><v1:N>1</v1:N><v2:N>x</v2:N></v1:o>`,
@@ -110,6 +116,37 @@ func c10Formats() []c10Fmt {
 				'C': `<v1:o id="3"><v1:N>zz</v1:N></v1:o>`,
 				'N': `<v2:o id="8"><v1:N>8</v1:N></v2:o>`,
 				'M': `<o id="9"><v1:N>9</v1:N></o>`}},
+		// records that are members of JSON objects (keyed by position) inside containers that repeat, and
+		// a target xpath with a filter: F is a record the filter turns down, '|' starts the next container;
+		// neither is a record, and neither may change what the records around it give
+		{Name: "json-keyed-batches", Schema: `{` + h("json") + `,"transform_declarations":{"FINAL_OUTPUT":{"xpath":"/batches/*/*[status='open']","object":{
+  "n":{"xpath":"N","type":"int"},"s":{"xpath":"status"},"m":{"xpath":"M/*"},"cp":{"custom_func":{"name":"copy"}}}}}}`,
+			Syms: "ABCDF|", Rec: map[byte]string{
+				'A': `{"status":"open","N":1}`,
+				'B': `{"N":22,"M":["m"],"status":"open"}`,
+				'C': `{"status":"open","N":"zz"}`,
+				'D': `{"status":"open","N":4,"M":[1,2]}`,
+				'F': `{"status":"closed","N":7}`,
+				'|': ``},
+			Render: func(f c10Fmt, seq string) string {
+				var b strings.Builder
+				b.WriteString(`{"batches":{"b0":{`)
+				first := true
+				for i := 0; i < len(seq); i++ {
+					if seq[i] == '|' {
+						fmt.Fprintf(&b, `},"b%d":{`, i+1)
+						first = true
+						continue
+					}
+					if !first {
+						b.WriteString(",")
+					}
+					first = false
+					fmt.Fprintf(&b, `"o%d":%s`, i, f.Rec[seq[i]])
+				}
+				b.WriteString(`}}}`)
+				return b.String()
+			}},
 	}
 }
 
@@ -136,6 +173,9 @@ func c10Norm(s hx.Step) string {
 }
 
 func c10Input(f c10Fmt, seq string) string {
+	if f.Render != nil {
+		return f.Render(f, seq)
+	}
 	var parts []string
 	for i := 0; i < len(seq); i++ {
 		parts = append(parts, f.Rec[seq[i]])
